@@ -478,9 +478,12 @@ impl ReadonlyRandomAccessFile for SimHandle {
         let fs = Arc::clone(&self.fs);
         fs.rendezvous("size");
         let mut st = fs.state.lock();
-        // the size query on an open handle can fail like the one by path
-        fs.check_fault(&mut st, "size", &self.path)?;
-        Ok(st.disk.inodes.get(&self.inode).map_or(0, |f| f.len()) as u64)
+        let n = st.disk.inodes.get(&self.inode).map_or(0, |f| f.len()) as u64;
+        // the size query on an open handle can fail like the one by path; the query on a file
+        // that already has contents (a log reopened for appending, a table being opened) is a
+        // class of its own for the choice of fault positions
+        fs.check_fault(&mut st, if n > 0 { "size+" } else { "size" }, &self.path)?;
+        Ok(n)
     }
 }
 
